@@ -219,3 +219,17 @@ REG.add(Contract(F_PT, 'Excel_PairTabulation._add_pair_worksheet', params=[('sel
     requires=_pl_pre, ensures=_pl_post, post_names=['label-of-the-unordered-pair-holds-the-last-declared-function', 'columns-are-the-sorted-labels', 'sheet-Pair-filled-with-them-on-the-r-grid'],
     invariants={0: lambda v, old: _pair_dict(v.pot_dict, p_pots(v.self), v._i0)}, ghost={'pot_dict': T.Dict(T.Str, T.Fn)},
     definitions=lambda: sheet_axioms() + title_axioms() + BE_.sorted_axioms(), on_raise=lambda v, old: [], carries=['post', 'preserve/0'], props=['C19']))
+
+# ---------------------------------------------------------------- Excel_PairTabulation._build_workbook (C17/C19): a workbook that could not be completed is not kept
+REG.classes['Excel_PairTabulation'].fields.update({'_workbook': T.Opt(T.Obj('Workbook'))})
+REG.add(Contract('<ext>', 'Workbook.__init__', params=[('self', T.Obj('Workbook'))], external=True, note=_A6 + 'Workbook(): a new workbook with one active sheet', props=['C19', 'C17']))
+REG.add(Contract('<ext>', 'Workbook.remove', params=[('self', T.Obj('Workbook')), ('sheet', T.Any)], external=True, note=_A6 + 'wb.remove(sheet)', props=['C19', 'C17']))
+REG.add(Contract(F_PT, 'Excel_PairTabulation._add_worksheets', params=[('self', T.Any), ('wb', T.Obj('Workbook'))], trusted=True, on_raise=lambda v, old: [],
+    note='adds the Pair sheet by evaluating the model functions (verified as _add_pair_worksheet under its own contract): any evaluation may raise', props=['C19', 'C17']))
+def _kept_nothing(v, old):
+    rec = v._ex.deref(v._frame['self'], v._st)
+    w = rec.fields.get('_workbook')
+    return [z3.BoolVal(w is None or type(v._ex.deref(w, v._st)).__name__ == 'NoneV')]
+REG.add(Contract(F_PT, 'Excel_PairTabulation._build_workbook', params=[('self', T.New('Excel_PairTabulation'))], result=T.Obj('Workbook'),
+    on_raise=_kept_nothing, raises_when=lambda v, old, exc: [z3.BoolVal(True)], carries=['on_raise'], props=['C19', 'C17'],
+    note='when filling the sheets raises, the object has not kept the workbook under construction (the `workbook` property stores it only once complete)'))
